@@ -360,7 +360,7 @@ def run_item(item):
         "outcomes": {},
         "violations": [],
         "samples": [],
-        "extra": {"caps_hit": 0, "engine_calls": 0, "collects": 0, "stream_datums_checked": 0},
+        "extra": {"caps_hit": 0, "nontrivial_cases": 0, "engine_calls": 0, "collects": 0, "stream_datums_checked": 0},
     }
     for b in range(0, len(cases), BATCH):
         batch = cases[b : b + BATCH]
@@ -386,6 +386,7 @@ def run_item(item):
             out["states"].add(dg)
             if _nontrivial(case, facts):
                 out["nontrivial"].add(dg)
+                out["extra"]["nontrivial_cases"] += 1
             cls = f"dets={len(case[0])}|collects={len(case[0][0])}|publishing={facts['publishing_collects']}|final={min(p[-1] for p in case[0])}"
             out["outcomes"][cls] = out["outcomes"].get(cls, 0) + 1
             if viol is not None:
